@@ -163,8 +163,12 @@ class Check:
                 fcntl.flock(lk, fcntl.LOCK_EX)
             shutil.copyfile(gosum_src, os.path.join(hd, "go.sum"))
             # private binary so that a concurrent rebuild cannot swap it under us
-            rc, out, err, w = run(["go", "build", "-tags", "verif", "-o", self.vhbin, "./cmd/vh"],
-                                  cwd=hd, env=goenv(), timeout=900)
+            e = goenv()
+            flags = []
+            if os.environ.get("VERIF_RACE_HARNESS") == "1":  # audit aid: the whole harness under the Go race detector
+                flags, e["CGO_ENABLED"] = ["-race"], "1"
+            rc, out, err, w = run(["go", "build"] + flags + ["-tags", "verif", "-o", self.vhbin, "./cmd/vh"],
+                                  cwd=hd, env=e, timeout=900)
             if rc != 0:
                 raise Inconclusive("harness does not build against %s:\n%s%s" % (REPO, out[-3000:], err[-3000:]))
         self._built = True
